@@ -123,7 +123,521 @@ pub mod stubs {
     pub fn rw_lock_exclusive_slow(_m: &parking_lot::RawRwLock, _t: Option<Instant>) -> bool {
         panic!("VERIF: parking_lot::RawRwLock::lock_exclusive_slow reached (self-deadlock)")
     }
+    // unlock slow paths: taken only when another thread is parked on the lock; on one thread that
+    // cannot be the case, and Kani proves these panics unreachable too
+    pub fn mutex_unlock_slow(_m: &parking_lot::RawMutex, _f: bool) {
+        panic!("VERIF: parking_lot::RawMutex::unlock_slow reached (a thread is parked on the lock)")
+    }
+    pub fn rw_unlock_exclusive_slow(_m: &parking_lot::RawRwLock, _f: bool) {
+        panic!("VERIF: parking_lot::RawRwLock::unlock_exclusive_slow reached")
+    }
+    pub fn rw_unlock_shared_slow(_m: &parking_lot::RawRwLock) {
+        panic!("VERIF: parking_lot::RawRwLock::unlock_shared_slow reached")
+    }
+    pub fn cv_notify_all_slow(_c: &parking_lot::Condvar, _m: *mut parking_lot::RawMutex) -> usize {
+        panic!("VERIF: parking_lot::Condvar::notify_all_slow reached (a thread waits on the condvar)")
+    }
+    pub fn cv_notify_one_slow(_c: &parking_lot::Condvar, _m: *mut parking_lot::RawMutex) -> bool {
+        panic!("VERIF: parking_lot::Condvar::notify_one_slow reached")
+    }
+    /// `Arc::drop_slow` (destruction of the value when the last reference goes away) is replaced
+    /// by a leak: no property is about destructors, and CBMC cannot see reference counts through
+    /// the Arc allocation, so it would explore the destructor of every Arc'd object (BTreeMap of
+    /// Metrics::Op, channels, maps) at every Arc drop.
+    pub unsafe fn arc_drop_slow<T: ?Sized, A: std::alloc::Allocator>(_a: &mut std::sync::Arc<T, A>) {}
     pub fn fmt_format(_a: std::fmt::Arguments<'_>) -> String {
         String::new()
+    }
+}
+
+/// Hasher used for every map of the fixtures (natively a real `HashMap` with this hasher).
+pub type HS = std::hash::BuildHasherDefault<crate::TransparentHasher>;
+
+#[cfg(kani)]
+pub type Map<K, V> = crate::verif_kmap::HashMap<K, V, HS>;
+#[cfg(not(kani))]
+pub type Map<K, V> = std::collections::HashMap<K, V, HS>;
+
+/// Build a map from (up to 3) entries placed in the given slots. Under Kani the slot positions are
+/// the iteration order; natively the real HashMap decides. Keys must be distinct (caller assumes).
+#[cfg(kani)]
+pub fn hm_from<K: Eq + std::hash::Hash, V>(slots: [Option<(K, V)>; 3]) -> Map<K, V> {
+    crate::verif_kmap::HashMap::from_slots(slots, HS::default())
+}
+#[cfg(not(kani))]
+pub fn hm_from<K: Eq + std::hash::Hash, V>(slots: [Option<(K, V)>; 3]) -> Map<K, V> {
+    let mut m = std::collections::HashMap::with_hasher(HS::default());
+    for s in slots {
+        if let Some((k, v)) = s {
+            m.insert(k, v);
+        }
+    }
+    m
+}
+
+// ================================================================================================
+// Channel FIFO contract (Kani only): crossbeam-channel cannot be compiled by Kani (TLS
+// destructors), so the operations stretto uses are stubbed by a bounded FIFO:
+//   try_send fails with Full at capacity; try_recv fails with Empty; FIFO order.
+// Queues are told apart by message size: zero-sized = the unbounded clear-signal channel,
+// size_of::<Vec<u64>>() = the policy's batch channel, anything else = the insert buffer.
+// ================================================================================================
+#[cfg(kani)]
+pub mod chan {
+    use crossbeam_channel::{Receiver, SendError, Sender, TryRecvError, TrySendError};
+    use std::mem::size_of;
+
+    pub const QMAX: usize = 4;
+    static mut Q_PTR: [usize; QMAX] = [0; QMAX];
+    static mut Q_LEN: usize = 0;
+    static mut Q_CAP: usize = 1;
+    static mut U_LEN: usize = 0;
+    static mut P_PTR: [usize; QMAX] = [0; QMAX];
+    static mut P_LEN: usize = 0;
+    static mut P_CAP: usize = 3;
+
+    pub fn reset(insert_buf_cap: usize) {
+        unsafe {
+            Q_LEN = 0;
+            Q_CAP = insert_buf_cap;
+            U_LEN = 0;
+            P_LEN = 0;
+        }
+    }
+    pub fn insert_buf_len() -> usize {
+        unsafe { Q_LEN }
+    }
+    pub fn clear_signals() -> usize {
+        unsafe { U_LEN }
+    }
+
+    fn is_batch<T>() -> bool {
+        size_of::<T>() == size_of::<Vec<u64>>()
+    }
+
+    pub fn try_send<T>(_s: &Sender<T>, msg: T) -> Result<(), TrySendError<T>> {
+        unsafe {
+            if size_of::<T>() == 0 {
+                U_LEN += 1;
+                std::mem::forget(msg);
+                return Ok(());
+            }
+            if is_batch::<T>() {
+                if P_LEN >= P_CAP || P_LEN >= QMAX {
+                    return Err(TrySendError::Full(msg));
+                }
+                P_PTR[P_LEN] = Box::into_raw(Box::new(msg)) as usize;
+                P_LEN += 1;
+                return Ok(());
+            }
+            if Q_LEN >= Q_CAP || Q_LEN >= QMAX {
+                return Err(TrySendError::Full(msg));
+            }
+            Q_PTR[Q_LEN] = Box::into_raw(Box::new(msg)) as usize;
+            Q_LEN += 1;
+            Ok(())
+        }
+    }
+
+    /// blocking send: only used by stretto on the unbounded clear channel (never blocks there);
+    /// a blocking send on a full bounded channel would block forever on one thread.
+    pub fn send<T>(s: &Sender<T>, msg: T) -> Result<(), SendError<T>> {
+        match try_send(s, msg) {
+            Ok(()) => Ok(()),
+            Err(_) => panic!("VERIF: blocking send on a full channel (would block forever on one thread)"),
+        }
+    }
+
+    pub fn try_recv<T>(_r: &Receiver<T>) -> Result<T, TryRecvError> {
+        unsafe {
+            if size_of::<T>() == 0 {
+                if U_LEN == 0 {
+                    return Err(TryRecvError::Empty);
+                }
+                U_LEN -= 1;
+                return Ok(std::mem::MaybeUninit::<T>::uninit().assume_init());
+            }
+            if is_batch::<T>() {
+                if P_LEN == 0 {
+                    return Err(TryRecvError::Empty);
+                }
+                let p = P_PTR[0];
+                let mut i = 1;
+                while i < QMAX {
+                    P_PTR[i - 1] = P_PTR[i];
+                    i += 1;
+                }
+                P_LEN -= 1;
+                return Ok(*Box::from_raw(p as *mut T));
+            }
+            if Q_LEN == 0 {
+                return Err(TryRecvError::Empty);
+            }
+            let p = Q_PTR[0];
+            let mut i = 1;
+            while i < QMAX {
+                Q_PTR[i - 1] = Q_PTR[i];
+                i += 1;
+            }
+            Q_LEN -= 1;
+            Ok(*Box::from_raw(p as *mut T))
+        }
+    }
+
+    pub fn is_empty<T>(_r: &Receiver<T>) -> bool {
+        unsafe {
+            if size_of::<T>() == 0 {
+                U_LEN == 0
+            } else if is_batch::<T>() {
+                P_LEN == 0
+            } else {
+                Q_LEN == 0
+            }
+        }
+    }
+
+    /// `select!{ send(..) -> .., default => .. }` goes through `internal::try_select`; its Ok value
+    /// cannot be produced by a stub, so only the "nothing ready -> default" outcome is executed.
+    pub fn try_select<'a>(
+        _handles: &mut [(&'a dyn crossbeam_channel::internal::SelectHandle, usize, *const u8)],
+        _is_biased: bool,
+    ) -> Result<crossbeam_channel::SelectedOperation<'a>, crossbeam_channel::TrySelectError> {
+        Err(crossbeam_channel::TrySelectError)
+    }
+}
+#[cfg(not(kani))]
+pub mod chan {
+    pub fn reset(_insert_buf_cap: usize) {}
+}
+
+// ================================================================================================
+// Metrics recorder (Kani only): `Metrics::add/is_op/clear/track_eviction` are stubbed by an
+// 11-counter recorder in harnesses that are about the CALL SITES of metrics (C17); the real
+// striped-atomics implementation is decided separately (c17_metrics_inner).
+// ================================================================================================
+pub mod mrec {
+    use crate::metrics::{MetricType, Metrics};
+    #[cfg(kani)]
+    static mut CNT: [u64; 12] = [0; 12];
+    #[cfg(kani)]
+    static mut ON: bool = false;
+    #[cfg(kani)]
+    static mut TRACKED: u64 = 0;
+
+    #[cfg(kani)]
+    pub fn enable(on: bool) {
+        unsafe {
+            ON = on;
+            CNT = [0; 12];
+            TRACKED = 0;
+        }
+    }
+    #[cfg(not(kani))]
+    pub fn enable(_on: bool) {}
+
+    /// the metrics object for a fixture: under Kani always `Noop` (calls are recorded by the
+    /// stubs when enabled); natively the real thing
+    pub fn make(on: bool) -> Metrics {
+        enable(on);
+        #[cfg(kani)]
+        {
+            Metrics::Noop
+        }
+        #[cfg(not(kani))]
+        {
+            if on {
+                Metrics::new_op()
+            } else {
+                Metrics::new()
+            }
+        }
+    }
+
+    #[cfg(kani)]
+    pub fn add(_m: &Metrics, typ: MetricType, _hash: u64, delta: u64) -> bool {
+        unsafe {
+            if !ON {
+                return false;
+            }
+            let i = typ as usize;
+            CNT[i] = CNT[i].wrapping_add(delta);
+            true
+        }
+    }
+    #[cfg(kani)]
+    pub fn is_op(_m: &Metrics) -> bool {
+        unsafe { ON }
+    }
+    #[cfg(kani)]
+    pub fn clear(_m: &Metrics) {
+        unsafe {
+            CNT = [0; 12];
+            TRACKED = 0;
+        }
+    }
+    #[cfg(kani)]
+    pub fn track_eviction(_m: &Metrics, _secs: i64) {
+        unsafe {
+            if ON {
+                TRACKED += 1;
+            }
+        }
+    }
+
+    /// read a counter (works in both builds)
+    pub fn get(_m: &Metrics, typ: MetricType) -> u64 {
+        #[cfg(kani)]
+        unsafe {
+            CNT[typ as usize]
+        }
+        #[cfg(not(kani))]
+        {
+            let m = _m;
+            (match typ {
+                MetricType::Hit => m.get_hits(),
+                MetricType::Miss => m.get_misses(),
+                MetricType::KeyAdd => m.get_keys_added(),
+                MetricType::KeyUpdate => m.get_keys_updated(),
+                MetricType::KeyEvict => m.get_keys_evicted(),
+                MetricType::CostAdd => m.get_cost_added(),
+                MetricType::CostEvict => m.get_cost_evicted(),
+                MetricType::DropSets => m.get_sets_dropped(),
+                MetricType::RejectSets => m.get_sets_rejected(),
+                MetricType::DropGets => m.get_gets_dropped(),
+                MetricType::KeepGets => m.get_gets_kept(),
+                MetricType::DoNotUse => Some(0),
+            })
+            .unwrap_or(0)
+        }
+    }
+    pub fn tracked(_m: &Metrics) -> u64 {
+        #[cfg(kani)]
+        unsafe {
+            TRACKED
+        }
+        #[cfg(not(kani))]
+        {
+            0
+        }
+    }
+}
+
+// ================================================================================================
+// Recording callback / coster / key builders for the cache-level fixtures
+// ================================================================================================
+pub mod rec {
+    use crate::{CacheCallback, Coster, Item, KeyBuilder};
+    use std::sync::atomic::{AtomicI64, AtomicU64, AtomicU8, Ordering};
+
+    /// number of distinct value tags (values are small integers 0..NT)
+    pub const NT: usize = 4;
+
+    fn z8() -> [AtomicU8; NT] {
+        [AtomicU8::new(0), AtomicU8::new(0), AtomicU8::new(0), AtomicU8::new(0)]
+    }
+    fn z64() -> [AtomicI64; NT] {
+        [AtomicI64::new(0), AtomicI64::new(0), AtomicI64::new(0), AtomicI64::new(0)]
+    }
+    fn zu64() -> [AtomicU64; NT] {
+        [AtomicU64::new(0), AtomicU64::new(0), AtomicU64::new(0), AtomicU64::new(0)]
+    }
+
+    /// per-value-tag counters of the three callbacks, plus the cost/index reported with the item
+    pub struct RecCb {
+        pub exit: [AtomicU8; NT],
+        pub evict: [AtomicU8; NT],
+        pub reject: [AtomicU8; NT],
+        pub cost: [AtomicI64; NT],
+        pub index: [AtomicU64; NT],
+        pub bad: AtomicU8,
+    }
+    impl RecCb {
+        pub fn new() -> Self {
+            Self { exit: z8(), evict: z8(), reject: z8(), cost: z64(), index: zu64(), bad: AtomicU8::new(0) }
+        }
+        pub fn exits(&self, t: u64) -> u8 {
+            self.exit[t as usize].load(Ordering::SeqCst)
+        }
+        pub fn evicts(&self, t: u64) -> u8 {
+            self.evict[t as usize].load(Ordering::SeqCst)
+        }
+        pub fn rejects(&self, t: u64) -> u8 {
+            self.reject[t as usize].load(Ordering::SeqCst)
+        }
+        pub fn total(&self, t: u64) -> u8 {
+            self.exits(t) + self.evicts(t) + self.rejects(t)
+        }
+        pub fn cost_of(&self, t: u64) -> i64 {
+            self.cost[t as usize].load(Ordering::SeqCst)
+        }
+        pub fn index_of(&self, t: u64) -> u64 {
+            self.index[t as usize].load(Ordering::SeqCst)
+        }
+        pub fn all(&self) -> u32 {
+            let mut n = 0u32;
+            let mut t = 0;
+            while t < NT as u64 {
+                n += self.total(t) as u32;
+                t += 1;
+            }
+            n
+        }
+    }
+    impl CacheCallback for RecCb {
+        type Value = u64;
+        fn on_exit(&self, val: Option<u64>) {
+            match val {
+                Some(v) if (v as usize) < NT => {
+                    self.exit[v as usize].fetch_add(1, Ordering::SeqCst);
+                }
+                _ => {
+                    self.bad.fetch_add(1, Ordering::SeqCst);
+                }
+            }
+        }
+        fn on_evict(&self, item: Item<u64>) {
+            match item.val {
+                Some(v) if (v as usize) < NT => {
+                    self.evict[v as usize].fetch_add(1, Ordering::SeqCst);
+                    self.cost[v as usize].store(item.cost, Ordering::SeqCst);
+                    self.index[v as usize].store(item.index, Ordering::SeqCst);
+                }
+                _ => {
+                    self.bad.fetch_add(1, Ordering::SeqCst);
+                }
+            }
+        }
+        fn on_reject(&self, item: Item<u64>) {
+            match item.val {
+                Some(v) if (v as usize) < NT => {
+                    self.reject[v as usize].fetch_add(1, Ordering::SeqCst);
+                    self.cost[v as usize].store(item.cost, Ordering::SeqCst);
+                    self.index[v as usize].store(item.index, Ordering::SeqCst);
+                }
+                _ => {
+                    self.bad.fetch_add(1, Ordering::SeqCst);
+                }
+            }
+        }
+    }
+
+    /// Coster with one arbitrary (harness-chosen) valuation per value tag: "every Coster function"
+    pub struct TabCoster {
+        pub tab: [i64; NT],
+        pub calls: AtomicU8,
+    }
+    impl Coster for TabCoster {
+        type Value = u64;
+        fn cost(&self, val: &u64) -> i64 {
+            self.calls.fetch_add(1, Ordering::SeqCst);
+            self.tab[(*val as usize) % NT]
+        }
+    }
+
+    /// Key builder for u64 keys that forces collisions: index = k >> 4, conflict = k & 15
+    /// (two keys with equal k >> 4 share the index hash and differ in conflict hash unless one
+    /// of them has conflict 0).
+    #[derive(Default)]
+    pub struct CollidingKb;
+    impl KeyBuilder for CollidingKb {
+        type Key = u64;
+        fn hash_index<Q>(&self, key: &Q) -> u64
+        where
+            u64: core::borrow::Borrow<Q>,
+            Q: core::hash::Hash + Eq + ?Sized,
+        {
+            use core::hash::Hasher;
+            let mut h = crate::TransparentHasher::default();
+            key.hash(&mut h);
+            h.finish() >> 4
+        }
+        fn hash_conflict<Q>(&self, key: &Q) -> u64
+        where
+            u64: core::borrow::Borrow<Q>,
+            Q: core::hash::Hash + Eq + ?Sized,
+        {
+            use core::hash::Hasher;
+            let mut h = crate::TransparentHasher::default();
+            key.hash(&mut h);
+            h.finish() & 15
+        }
+    }
+}
+
+// ================================================================================================
+// Recorder behind `LFUPolicy::push` (Kani only; C15): the body of push is a crossbeam `select!`
+// that cannot be executed, so in the harnesses that exercise the ring buffer / Cache::get wiring
+// push is replaced by a recorder that notes every handed-over batch and answers kept / dropped /
+// error as the solver chooses.
+// ================================================================================================
+pub mod pushrec {
+    #[cfg(kani)]
+    pub const FMAX: usize = 8;
+    #[cfg(kani)]
+    static mut FLAT: [u64; FMAX] = [0; FMAX];
+    #[cfg(kani)]
+    static mut FLAT_LEN: usize = 0;
+    #[cfg(kani)]
+    static mut BATCHES: usize = 0;
+    #[cfg(kani)]
+    static mut LAST_LEN: usize = 0;
+    #[cfg(kani)]
+    static mut MIN_LEN: usize = usize::MAX;
+
+    #[cfg(kani)]
+    pub fn reset() {
+        unsafe {
+            FLAT_LEN = 0;
+            BATCHES = 0;
+            LAST_LEN = 0;
+            MIN_LEN = usize::MAX;
+        }
+    }
+    #[cfg(kani)]
+    pub fn push<S>(_p: &crate::policy::LFUPolicy<S>, keys: Vec<u64>) -> Result<bool, crate::CacheError> {
+        unsafe {
+            let mut i = 0;
+            while i < keys.len() {
+                if FLAT_LEN < FMAX {
+                    FLAT[FLAT_LEN] = keys[i];
+                    FLAT_LEN += 1;
+                }
+                i += 1;
+            }
+            BATCHES += 1;
+            LAST_LEN = keys.len();
+            if keys.len() < MIN_LEN {
+                MIN_LEN = keys.len();
+            }
+        }
+        std::mem::forget(keys);
+        let a = crate::verif_nd::any_u8();
+        if a == 0 {
+            Ok(true)
+        } else if a == 1 {
+            Ok(false)
+        } else {
+            Err(crate::CacheError::SendError(String::new()))
+        }
+    }
+    #[cfg(kani)]
+    pub fn flat(i: usize) -> u64 {
+        unsafe { FLAT[i] }
+    }
+    #[cfg(kani)]
+    pub fn flat_len() -> usize {
+        unsafe { FLAT_LEN }
+    }
+    #[cfg(kani)]
+    pub fn batches() -> usize {
+        unsafe { BATCHES }
+    }
+    #[cfg(kani)]
+    pub fn last_len() -> usize {
+        unsafe { LAST_LEN }
+    }
+    #[cfg(kani)]
+    pub fn min_len() -> usize {
+        unsafe { MIN_LEN }
     }
 }
